@@ -3,7 +3,7 @@
     coq/Glue. *)
 From Coq Require Import ZArith List Bool.
 From Stk Require Import Lib.U Gen.SrcTimers T.Model T.Spec T.Inv T.Rel
-  Glue.TimersAbs Glue.TimersAbsProofs Glue.TimersAbsWitness.
+  Glue.TimersAbs Glue.TimersAbsProofs Glue.TimersAbsWitness Glue.TimersAbsR.
 Import ListNotations.
 Local Open Scope Z_scope.
 
@@ -83,3 +83,21 @@ Example glue_far_order :
   fst (arun ainit far_ops) = [ AKey; AKey; AFired [2; 1] ] /\
   good far_ops /\ adom_b ainit far_ops = false.
 Proof. exact far_differs. Qed.
+
+(** The abstract machine is Layer R's: under [enc] (milliseconds -> nanoseconds, timer counter -> creation
+    index, closure uid -> callback id) the advance inside `Stakker::run` of coq/R/Rt.v ([fire], called by
+    MRunMain after `now := t` when `t > now`) is the [ORun] case of [astep]: same fired closures in the same
+    order, same remaining timers; [timer_add] of a fixed timer is [a_add]. *)
+Theorem glue_rt_fire : forall t s cnt, Rt.now s < t ->
+  let a := mkA (Rt.now s * MS) (map enc (Rt.timers s)) cnt in
+  let '(fired, s') := Rt.fire t (Rt.set_now s t) in
+  astep a (ORun (t * MS)) =
+    (mkA (t * MS) (map enc (Rt.timers s')) (cnt + 1), AFired (map (fun c => Z.of_N (Syntax.ci_uid c)) fired)).
+Proof. exact fire_is_astep_run. Qed.
+Print Assumptions glue_rt_fire.
+Theorem glue_rt_timer_add : forall s v t ci,
+  map enc (Rt.timers (Rt.timer_add s Syntax.TFixed v t ci)) =
+  a_pend (a_add (mkA (Rt.now s * MS) (map enc (Rt.timers s)) (Z.of_N (Rt.tnext s))) (t * MS) (Z.of_N (Syntax.ci_uid ci))) /\
+  Rt.tnext (Rt.timer_add s Syntax.TFixed v t ci) = (Rt.tnext s + 1)%N.
+Proof. exact timer_add_is_a_add. Qed.
+Print Assumptions glue_rt_timer_add.
